@@ -16,6 +16,10 @@ var (
 	KeyTokenFeeders = []byte("TokenFeeders")
 )
 
+// MaxTokenDecimal is the largest decimal a token (and so a stored price) may have: sdkmath.Int holds 256 bits
+// (less than 10^78), and asset decimals go up to 18 (MaxDecimal of x/assets), so 10^(18+59) still fits.
+const MaxTokenDecimal = 59
+
 var _ paramtypes.ParamSet = (*Params)(nil)
 
 // ParamKeyTable the param key table for launch module
@@ -440,6 +444,11 @@ func (t Token) validate() error {
 	// Name must be set, and chainID must start from 1
 	if len(t.Name) == 0 || t.ChainID < 1 {
 		return ErrInvalidParams.Wrap("invalid Token, name not set or ChainID<1")
+	}
+	// every final price of the token is stored with this decimal, and USD values are computed in block
+	// processing with 10^(asset decimal + price decimal) as a 256-bit integer, which panics on overflow
+	if t.Decimal < 0 || t.Decimal > MaxTokenDecimal {
+		return ErrInvalidParams.Wrapf("invalid Token, decimal %d out of range [0, %d]", t.Decimal, MaxTokenDecimal)
 	}
 	return nil
 }
